@@ -448,7 +448,9 @@ def create_for_single_files_subcommand(
         if not os.path.isabs(path):
             path = os.path.join(os.getcwd(), path)
         if os.path.isdir(path):
-            for folder_path, children in post_order_lexicographic(path, session.ignore_spec.get_path_spec()):
+            for folder_path, children in post_order_lexicographic(
+                path, session.ignore_spec.get_path_spec(), root_path
+            ):
                 for item_name, is_dir in children:
                     file_path = os.path.join(folder_path, item_name)
                     if is_dir:
@@ -1455,7 +1457,7 @@ def xsd_schema_check(file_path, directory_file, xsd_file):
 def test_for_missing_files(not_found_paths, root_path, ignore_spec: MHLIgnoreSpec = MHLIgnoreSpec()):
     ignore_path_spec = ignore_spec.get_path_spec()
     # update to exclude our ignored files
-    not_found_paths = [x for x in not_found_paths if not ignore_path_spec.match_file(x)]
+    not_found_paths = [x for x in not_found_paths if not ignore_path_spec.match_file(os.path.relpath(x, root_path))]
     if len(not_found_paths) == 0:
         return None
     # test our not_found_paths against our ignore spec to ensure these weren't explicitly ignored.
